@@ -146,7 +146,56 @@ pub fn arm_{name}(arguments: Vec<Primitive>) -> (r: Result<(Option<Primitive>, O
 }}
 """)
         obls.append(Obl(f"C14.{name}", ["C14", "C17"], fn=f"arm_{name}", desc=f"BuiltInFunction::run arm {name}: the documented result inside the domain, a failure (never a panic) outside"))
-    gen = header(log, f"{FUNC}: BuiltInFunction::run arms " + ", ".join(ARMS)) + SPEC + "\n".join(fns) + "\n} // verus!\nfn main() {}\n"
+    # ---- string indexing `s[i]`: the Str arm of vec_op's `[idx]` branch (instruction.rs)
+    fv = src.fn("bytecode/src/instruction.rs", "vec_op", "pub mod implementations")
+    try:
+        arm = extract_match_arm(fv["body"], "Primitive :: Str ( ref string )")
+    except Exception as e:
+        raise Undecided(f"instruction.rs: arm Primitive::Str(ref string) of vec_op not found: {e}")
+    bi = translate(arm["body"], [
+        Rule("R3", ". with_context ( $$c ) ?", ". verif_ctx ( ) ?", why="context text dropped; None -> Err"),
+        Rule("R9", "let mut str_chars = string . chars ( ) ;", "", why="Chars iterator: its only use is nth()"),
+        Rule("R9", "str_chars . nth ( $i )", "str_chars_nth ( string , $i )", why="Chars::nth: the i-th character"),
+        Rule("R9", "string . chars ( ) . nth ( $i )", "str_chars_nth ( string , $i )", why="Chars::nth: the i-th character"),
+        Rule("R9", "string . get ( $a .. )", "str_get_from ( string , $a )", why="str::get(range)"),
+        Rule("R9", ". and_then ( | $r | $r . chars ( ) . next ( ) )", ". verif_first_char ( )", why="first character of a string slice"),
+        Rule("R1", ". to_string ( ) ,", ". verif_char_to_str ( ) ,", why="char::to_string"),
+        Rule("R1", ". to_string ( )", ". verif_char_to_str ( )", why="char::to_string"),
+        Rule("R13", "ctx . push ( $$e )", "stack . push ( $$e )", why="operand stack as an explicit vector"),
+    ], log, "vec_op[str index]")
+    check_closed(bi, "vec_op[str index]")
+    fns.append(f"""
+// characters of a string (uninterpreted relative to its bytes: a multi-byte character occupies several byte positions)
+pub uninterp spec fn chars(s: &Str) -> Seq<char>;
+pub uninterp spec fn char_str(c: char) -> Seq<u8>;
+#[verifier::external_body] pub fn str_chars_nth(s: &Str, i: usize) -> (r: Option<char>) ensures r == (if i < chars(s).len() {{ Some(chars(s)[i as int]) }} else {{ None::<char> }}) {{ unimplemented!() }}
+pub trait VerifOptChar {{ fn verif_ctx(self) -> Result<char, VErr>; }}
+impl VerifOptChar for Option<char> {{
+    #[verifier::external_body] fn verif_ctx(self) -> (r: Result<char, VErr>) ensures r is Ok <==> self is Some, r is Ok ==> Some(r->Ok_0) == self {{ unimplemented!() }}
+}}
+pub trait VerifOptStr {{ fn verif_first_char(self) -> Option<char>; }}
+impl VerifOptStr for Option<Str> {{
+    // first character of the slice, if the slice exists and is not empty
+    #[verifier::external_body] fn verif_first_char(self) -> (r: Option<char>)
+        ensures self is None ==> r is None, self is Some ==> r == (if chars(&self->Some_0).len() > 0 {{ Some(chars(&self->Some_0)[0]) }} else {{ None::<char> }}) {{ unimplemented!() }}
+}}
+pub trait VerifChar {{ fn verif_char_to_str(self) -> Str; }}
+impl VerifChar for char {{ #[verifier::external_body] fn verif_char_to_str(self) -> (r: Str) ensures bytes(&r) == char_str(self) {{ unimplemented!() }} }}
+
+//@ OBL C14.index.str
+// `s[i]`: the i-th CHARACTER of the string (not the i-th byte) as a one-character string; i beyond the last character is a failure
+pub fn index_str(string: &Str, idx: usize, stack: &mut Vec<Primitive>) -> (r: Result<(), VErr>)
+    ensures
+        idx < chars(string).len() ==> r is Ok && final(stack)@.len() == old(stack)@.len() + 1 && final(stack)@.drop_last() == old(stack)@
+            && final(stack)@.last() is Str && bytes(&final(stack)@.last()->Str_0) == char_str(chars(string)[idx as int]),
+        idx >= chars(string).len() ==> r is Err && final(stack)@ == old(stack)@,
+{{
+{render(bi, 1)};
+    Ok(())
+}}
+""")
+    obls.append(Obl("C14.index.str", ["C14", "C17"], fn="index_str", desc="vec_op `[idx]` on a string: the idx-th character (by characters, not bytes) as a one-character string; beyond the end a failure"))
+    gen = header(log, f"{FUNC}: BuiltInFunction::run arms " + ", ".join(ARMS) + "; instruction.rs: vec_op (string index arm)") + SPEC + "\n".join(fns) + "\n} // verus!\nfn main() {}\n"
     return gen, obls, log
 
 
